@@ -3,24 +3,37 @@ import layer_common as lc
 
 MODEL = "layer"
 SHRINKABLE = True
-RULE = ("same generator family as C07 with unicode assignments weighted up and the first access to layer.unicodeData "
-        "placed at a random position of the history; the map is compared (names under a code point as sets) with the "
-        "inverse of the abstract content after every op once it exists; non-trivial = non-empty glyph set and a mutating "
-        "op; distinct = distinct (content, variant, ops)")
+RULE = ("same generator family as C07 with unicode assignments weighted up and the first access to a layer's unicodeData "
+        "placed at a random position of the history; unicode lists WITH repeated code points, re-assignments that only "
+        "reorder / repeat / drop a repetition, glyph.unicode = v, glyph.unicodes = [], read-modify-write on the list the "
+        "getter hands out, renames onto names that are present, newGlyph / insertGlyph over present names, reloadGlyphs "
+        "after an external rewrite of glyphs that have and have not been read, look-ups (unicodeForGlyphName, "
+        "pseudoUnicodeForGlyphName, glyphNameForUnicode, `c in unicodeData`); a third of the cases have several layers "
+        "(operations on non-default layers, through the Font API, changes of the default layer, new layers); every case "
+        "runs unread / partly read / fully read / as a memory-only twin; the map is compared with the model name by name "
+        "WITH multiplicity and by the oracle with the inverse of the abstract content after every op once it exists; "
+        "non-trivial = non-empty glyph set and a mutating op; distinct = distinct (content, variant, ops)")
 ASSUMPTIONS = [
-    "renames never target a name that is present",
-    "glyph unicodes lists carry no duplicates",
-    "order and multiplicity of names under one code point are not part of the property; duplicates are reported though",
+    "what another program leaves in a GLIF is what glifLib reads from it: no repeated code point (lists assigned in memory may repeat)",
+    "the order of names under one code point is not part of the property and is not compared; a name may be listed as often as "
+    "the glyph's own list repeats the code point (the lazy constructor appends per list element), never more often",
+    "unicodeForGlyphName / pseudoUnicodeForGlyphName are judged by the oracle on the data of the default layer only: on another "
+    "layer's data they answer from the default layer's glyph of that name (UnicodeData.font), which the model reproduces and the "
+    "property does not speak about",
 ]
-TRUSTED = ["ufoLib's GlyphSet.getUnicodes GLIF scanner is exercised, not modelled"]
+TRUSTED = ["ufoLib's GlyphSet.getUnicodes GLIF scanner is exercised, not modelled (it reports each code point of a GLIF once)"]
 JUDGED = ("uni",)
 PROP = "C09"
 
 
+OPTS = dict(dup_rate=0.3, rename_onto_rate=0.45, reassign_rate=0.35, setter_rate=0.15, via_rate=0.2, lookup_rate=0.55,
+            lookup_pre=0.08, save_pre=0.04, multi_rate=0.34)
+
+
 def generate(rng, tier):
-    groups, maxops = (150, 14) if tier == "quick" else (4000, 30)
+    groups, maxops = (450, 14) if tier == "quick" else (4000, 30)
     for _ in range(groups):
-        for c in lc.gen_group(rng, maxops, uni_weight=2.5, incoherent_rate=0.0):
+        for c in lc.gen_group(rng, maxops, uni_weight=2.5, incoherent_rate=0.0, opts=OPTS):
             yield c
 
 
